@@ -20,6 +20,8 @@ structure C16 where
   a : Nat
   deriving DecidableEq, Repr, Inhabited
 
+def C16.ofQuad (q : Nat × Nat × Nat × Nat) : C16 := ⟨q.1, q.2.1, q.2.2.1, q.2.2.2⟩
+
 /-- What `toRGB` returns: four `uint8`s. -/
 structure C8 where
   r : Nat
